@@ -5,13 +5,11 @@ import (
 	"fmt"
 	"strings"
 	"sync"
-	"time"
 
 	"github.com/aws/aws-sdk-go/aws"
 	"github.com/aws/aws-sdk-go/aws/session"
 	"github.com/aws/aws-sdk-go/service/s3"
 	"github.com/jrhy/mast"
-	"github.com/jrhy/mast/persist/s3test"
 	"github.com/jrhy/s3db/kv"
 	v1proto "github.com/jrhy/s3db/proto/v1"
 )
@@ -39,7 +37,7 @@ func OpenKV(ctx context.Context, s3opts S3Options, subdir string) (*KV, error) {
 		inMemoryS3Lock.Lock()
 		defer inMemoryS3Lock.Unlock()
 		if inMemoryS3 == nil {
-			inMemoryS3, inMemoryBucket, _ = s3test.Client()
+			inMemoryS3, inMemoryBucket, _ = verifInMemoryS3()
 		}
 		s3opts.Endpoint = inMemoryS3.Endpoint
 		s3opts.Bucket = inMemoryBucket
@@ -76,7 +74,7 @@ func OpenKV(ctx context.Context, s3opts S3Options, subdir string) (*KV, error) {
 		ReadOnly:     s3opts.ReadOnly,
 		OnlyVersions: s3opts.OnlyVersions,
 	}
-	s, err := kv.Open(ctx, c, cfg, openOpts, time.Now())
+	s, err := kv.Open(ctx, c, cfg, openOpts, verifNow(s3opts.Endpoint))
 	if err != nil {
 		return nil, fmt.Errorf("open: %w", err)
 	}
